@@ -71,7 +71,9 @@ func invalidHeader(r *gen.R, h ir.Header) string {
 	}
 	switch h.Format {
 	case "uuid":
-		return cyclePick("uuid", []string{"123e4567e89b42d3a456426614174000", "123e4567-e89b-42d3-a456-42661417400", "zzzzzzzz-zzzz-zzzz-zzzz-zzzzzzzzzzzz", "123e4567+e89b+42d3+a456+426614174000"})
+		return cyclePick("uuid", []string{"123e4567e89b42d3a456426614174000", "123e4567-e89b-42d3-a456-42661417400", "zzzzzzzz-zzzz-zzzz-zzzz-zzzzzzzzzzzz", "123e4567+e89b+42d3+a456+426614174000",
+			// dashes where hex digits belong, in even numbers (what is left after removing them is still an even count of hex digits)
+			"123e4567-e89b-12d3-a456-4266141740--", "12-e4567-e89b-12d3-a456-426614174-00", "------------------------------------"})
 	case "email":
 		return cyclePick("email", []string{"no-at-sign", "@", "a@", "@b", "a@b@c.test", "alice@@example.com", "alice@example.com@evil.test"})
 	case "date-time":
